@@ -1,11 +1,20 @@
-"""C11 deductive part: IndexedSet._get_real_index / _get_apparent_index and _add_dead (contracts/iset.py)."""
+"""C11 deductive part: IndexedSet._get_real_index / _get_apparent_index and _add_dead (contracts/iset.py); the item/slot
+representation under add, __contains__, __len__, count, clear, index (contracts/iset_core.py)."""
 from pyvc import driver
 from contracts import iset as m
+from contracts import iset_core as core
 
 
 def run(ded, repo, tier):
     driver.run_parallel(ded, [dict(module='contracts.iset', repo=repo, q=q, tier=tier, clause_of={'*': 'index_translation'})
-                              for q in m.FUNCS])
+                              for q in m.FUNCS] +
+                        [dict(module='contracts.iset_core', repo=repo, q=q, tier=tier, clause_of={'*': 'list_style_ops'})
+                         for q in core.FUNCS])
+    ded.assume('item/slot representation (contracts/iset_core.py): I1 every key of item_index_map points at the slot of item_list that '
+               'holds it, I2 every slot that is not _MISSING holds a key that points back at it; add/clear are proved to preserve it, '
+               'remove/pop/_cull/_compact/reverse/sort and the bulk operations are NOT under contract; arguments are not the private '
+               '_MISSING sentinel; index(): the proved postcondition of _get_apparent_index is restated with its witness existentially '
+               'quantified and used by contract')
     ded.assume('dead_indices is a sorted list of disjoint, non-empty [start, stop) intervals (the representation invariant of '
                'IndexedSet; _add_dead is proved to preserve it - in the stronger all-pairs form - and to make exactly the slot `start` '
                'dead; its preservation by _cull/_compact and the callers of _add_dead is NOT under contract); index >= 0')
@@ -14,4 +23,4 @@ def run(ded, repo, tier):
                'remove() and pop(); the clauses labelled wf / representation lemma are auxiliary (a refuted one loses the proof and is '
                'not reported as a violation)')
     ded.assume('prefix lengths of the dead intervals are non-negative (induction over the interval list not mechanised)')
-    ded.trust('not under contract (bounded only): everything else in IndexedSet (tombstone bookkeeping, compaction, set algebra, slices)')
+    ded.trust('not under contract (bounded only): everything else in IndexedSet (remove/pop/discard, compaction and culling, set algebra, slices, iteration, reverse/sort)')
